@@ -338,7 +338,7 @@ func cmdCheck(args []string) int {
 		o := violClasses[k]
 		j := jobOf[fmt.Sprintf("%s/%d", o.Harness, o.Cfg)]
 		rs := replaySpec{Property: prop, Package: j.Pkg, Harness: o.Harness, Cfg: o.Cfg, Params: j.Params, Vals: o.Model,
-			Expect: o.Msg, Pos: o.Pos, Prefix: o.Prefix}
+			Expect: o.Msg, Pos: o.Pos, Prefix: o.Prefix, MapOrder: o.MapOrder}
 		p := writeReplay(replayDir, rs)
 		fileOf[k] = p
 		byPkg[j.Pkg] = append(byPkg[j.Pkg], p)
